@@ -26,6 +26,10 @@ func checkC13(r *Run) {
 		b := separate(mk(), override)
 		// every third pair puts the structs at a gopkg.in-style import path
 		b.DottedPath = len(pairs)%3 == 1
+		// ... or at a path whose last element is no identifier and not the package name
+		b.HyphenPath = len(pairs)%6 == 5
+		// ... or in another module whose path begins with a digit
+		b.DigitPath = len(pairs)%6 == 3 && !override
 		if b.DottedPath {
 			b.Tags = append(b.Tags, "dotted-import-path")
 		}
